@@ -3,8 +3,11 @@
 package scorch
 
 import (
+	"context"
 	"os"
 	"path/filepath"
+
+	"github.com/blevesearch/bleve/v2/index/scorch/mergeplan"
 
 	"github.com/RoaringBitmap/roaring/v2"
 	rt "github.com/blevesearch/bleve/v2/internal/verifrt"
@@ -319,4 +322,78 @@ func VerifH_C12_OpenedSegmentsClosed() {
 	s.asyncTasks.Wait()
 	_ = s.rootBolt.Close()
 	rt.Cover(rt.And(when >= 1, inRoot <= 1), "a-persisted-segment-was-obsoleted-meanwhile")
+}
+
+// VerifH_C12_MergeBracket: a file merge (the real planMergeAtSnapshot with its mark / merge /
+// introduce / unmark bracket, real introducerLoop, stub plugin) over two persisted segments of the
+// root whose files may or may not be recorded in the metadata store yet (a file not yet recorded is
+// protected only by its "ineligible for removal" mark), ending in success, in a cancelled merge or in
+// a failing merge; then a purge round (the real removeOldData). Afterwards every segment file the
+// current root uses still exists, and when the merge did not happen no merge output is left behind.
+func VerifH_C12_MergeBracket() {
+	dir := verifTempDir()
+	defer os.RemoveAll(dir)
+	s := verifStartDisk(dir, false)
+	s.asyncTasks.Add(1)
+	go s.introducerLoop()
+	defer func() { verifMergeHook, verifMergeAwaitCancel = nil, false }()
+	// two persisted segments in the root; the first snapshot (segment 1) is recorded in bolt
+	snap1 := verifPersistedSnapshot(s, 1, 1, []byte{'a'}, map[string][]byte{})
+	rt.Assert(s.persistSnapshotDirect(snap1) == nil, "record the first snapshot")
+	recordedSecond := rt.Choice("second_file_recorded", 2) == 1
+	fn2 := filepath.Join(s.path, zapFileName(2))
+	rt.Assert(verifWriteSegFile(fn2, []byte{'b'}) == nil, "write second segment file")
+	seg2 := &verifPSeg{verifSeg{n: 1, idOf: []byte{'b'}, refs: 1, path: fn2}}
+	root := &IndexSnapshot{parent: s, refs: 1, epoch: 2, internal: map[string][]byte{}, creator: "verif",
+		segment: []*SegmentSnapshot{snap1.segment[0], {id: 2, segment: seg2, stats: newFieldStats(), cachedDocs: &cachedDocs{cache: nil}, cachedMeta: newCachedMeta()}},
+		offsets: []uint64{0, 1}}
+	s.root = root
+	s.nextSnapshotEpoch = 3
+	s.nextSegmentID = 2
+	if recordedSecond {
+		rt.Assert(s.persistSnapshotDirect(root) == nil, "record the second snapshot")
+		s.eligibleForRemoval = append(s.eligibleForRemoval, 1)
+	} else {
+		// e.g. the output of an earlier merge that the persister has not recorded yet
+		s.markIneligibleForRemoval(zapFileName(2))
+	}
+	outcome := rt.Choice("merge_outcome", 3) // 0 succeeds, 1 cancelled while writing, 2 nothing to do (already cancelled)
+	ctx, cancel := context.WithCancel(context.Background())
+	switch outcome {
+	case 1:
+		verifMergeHook = func() {
+			verifMergeHook = nil
+			cancel()
+			verifMergeAwaitCancel = true
+		}
+	case 2:
+		cancel()
+		verifMergeAwaitCancel = true // the merge is governed by the cancelled context: it will be told
+	}
+	cur := s.currentSnapshot()
+	opts := mergeplan.SingleSegmentMergePlanOptions
+	err := s.planMergeAtSnapshot(&mergerCtrl{ctx: ctx, options: &opts}, cur)
+	_ = cur.DecRef()
+	cancel()
+	if outcome == 0 {
+		rt.Assert(err == nil, "an undisturbed merge succeeds")
+	}
+	// a purge round
+	s.removeOldData()
+	now := s.currentSnapshot()
+	for _, ss := range now.segment {
+		if ps, ok := ss.segment.(segment.PersistedSegment); ok {
+			rt.Assert(verifFileExists(ps.Path()), "every segment file the current root uses exists after a merge attempt and a purge round")
+		}
+	}
+	if err != nil {
+		rt.Assert(len(now.segment) == 2, "a failed merge leaves the root as it was")
+		rt.Assert(!verifFileExists(filepath.Join(s.path, zapFileName(3))) || !s.ineligibleForRemoval[zapFileName(3)], "no protected merge output is left behind by a failed merge")
+	}
+	_ = now.DecRef()
+	close(s.closeCh)
+	s.asyncTasks.Wait()
+	_ = s.rootBolt.Close()
+	rt.Cover(rt.And(err != nil, !recordedSecond), "failed-merge-over-an-unrecorded-file")
+	rt.Cover(rt.And(err == nil, outcome == 0), "merge-succeeded")
 }
